@@ -228,7 +228,8 @@ func secOracleCapture(g *Gen) func() {
 		for _, line := range strings.Split(strings.TrimRight(mem.String(), "\n"), "\n") {
 			if line == "reset" {
 				hist++
-				skip = !g.Quick() && hist%3 != 0
+				// quick tier: one history in ten (among them warm-up histories) stays token-less, so that the symbolic path is run too
+				skip = (!g.Quick() && hist%3 != 0) || (g.Quick() && hist%10 == 6)
 				if !skip {
 					x.Reset()
 				}
